@@ -12,6 +12,15 @@ pub fn vector_commitment_decommit(
     queries: &[Query],
     witness: Witness,
 ) -> Result<(), Error> {
+    #[cfg(swiftness_verif)]
+    swiftness_transcript::verif::ev("vc.begin")
+        .f("height", &commitment.config.height)
+        .f("nvf", &commitment.config.n_verifier_friendly_commitment_layers)
+        .f("root", &commitment.commitment_hash)
+        .fs("idx", queries.iter().map(|q| &q.index))
+        .fs("val", queries.iter().map(|q| &q.value))
+        .fs("auth", witness.authentications.iter())
+        .emit();
     let shift = Felt::TWO.pow_felt(&commitment.config.height);
     // Shifts the query indices by shift=2**height, to convert index representation to heap-like.
     let shifted_queries: Vec<QueryWithDepth> = queries
@@ -31,6 +40,11 @@ pub fn vector_commitment_decommit(
         0,
     )?;
 
+    #[cfg(swiftness_verif)]
+    swiftness_transcript::verif::ev("vc.end")
+        .f("computed", &expected_commitment)
+        .b("ok", commitment.commitment_hash == expected_commitment)
+        .emit();
     if commitment.commitment_hash != expected_commitment {
         return Err(Error::MisMatch {
             value: commitment.commitment_hash,
@@ -63,6 +77,17 @@ pub fn compute_root_from_queries(
                     // next is a sibling of current
                     let hash =
                         hash_friendly_unfriendly(current.value, next.value, is_verifier_friendly);
+                    #[cfg(swiftness_verif)]
+                    swiftness_transcript::verif::ev("vc.node")
+                        .s("src", "pair")
+                        .f("idx", &current.index)
+                        .f("depth", &current.depth)
+                        .b("friendly", is_verifier_friendly)
+                        .f("l", &current.value)
+                        .f("r", &next.value)
+                        .f("out", &hash)
+                        .u("auth_pos", auth_start as u64)
+                        .emit();
                     queue.push(QueryWithDepth {
                         index: parent,
                         value: hash,
@@ -90,6 +115,17 @@ pub fn compute_root_from_queries(
             )
         };
 
+        #[cfg(swiftness_verif)]
+        swiftness_transcript::verif::ev("vc.node")
+            .s("src", "auth")
+            .f("idx", &current.index)
+            .f("depth", &current.depth)
+            .b("friendly", is_verifier_friendly)
+            .f("l", if bit == Felt::ZERO { &current.value } else { &authentications[auth_start] })
+            .f("r", if bit == Felt::ZERO { &authentications[auth_start] } else { &current.value })
+            .f("out", &hash)
+            .u("auth_pos", auth_start as u64)
+            .emit();
         queue.push(QueryWithDepth { index: parent, value: hash, depth: current.depth - 1 });
 
         compute_root_from_queries(
